@@ -141,7 +141,7 @@ func (g *gen) body(tx int, fe int, ro, auto, script, noSave bool) []*stmt {
 				id := int64(1 + g.r.IntN(keyDomain))
 				s.K = kCopy
 				s.Rows = []arow{{int64(keyDomain + 10 + g.r.IntN(5)), 1, g.marker(tx, i)}, {id, 2, g.marker(tx, i)}, {id, 3, g.marker(tx, i)},
-					{int64(keyDomain + 15 + g.r.IntN(5)), 4, g.marker(tx, i)}, {int64(keyDomain + 20 + g.r.IntN(5)), 5, g.marker(tx, i)}}
+					{int64(keyDomain + 15 + g.r.IntN(5)), 4, g.marker(tx, i)}} // ONE row after the failing one: rows applied outside the block appear one at a time
 			case y >= 10:
 				s.K = kInsBNull
 			case y < 5 && len(own) > 0:
@@ -358,7 +358,7 @@ func (g *gen) after(tx int, fe int) []*stmt {
 			s.K = kBegin
 		case fe == fePG:
 			s.K = kCopy
-			s.Rows = []arow{{int64(keyDomain + 30 + g.r.IntN(5)), 1, g.marker(tx, 900+i)}, {int64(keyDomain + 35 + g.r.IntN(5)), 2, g.marker(tx, 900+i)}}
+			s.Rows = []arow{{int64(keyDomain + 30 + g.r.IntN(10)), 1, g.marker(tx, 900+i)}} // one row: see above
 		default:
 			s.K, s.Tag = kInsB, int64(tx)*1000+900+int64(i)
 		}
